@@ -4,7 +4,9 @@
   Go sources mirrored here (as they are now, i.e. after the D8/D9 repairs):
 
     internal/limiter/client_limiter.go   ClientLimiterOpts.setDefault, NewClientLimiter,
-                                         ClientLimiter.AllowN, mask, gc
+                                         ClientLimiter.AllowN, mask, gc (with the fullness
+                                         requirement of repair 0275661; the old condition is
+                                         kept as `gcWith false` for the witness theorem)
     golang.org/x/time@v0.5.0/rate        NewLimiter, AllowN = reserveN(t, n, 0).ok, advance,
                                          tokensFromDuration, durationFromTokens
     net/netip                            Unmap, PrefixFrom(ip, bits).Masked().Addr()
@@ -33,6 +35,7 @@
 import MosVerif.Util
 -- @component limiter MosVerif.Limiter.run
 -- @component limiter_listener MosVerif.Limiter.runListener
+-- @component limiter_gcrace MosVerif.Limiter.runGcRace
 namespace MosVerif.Limiter
 
 /-! ## constants -/
@@ -760,5 +763,22 @@ def runListener (case impl : String) : String × String :=
       | _, _ => "unparsed"
     (m, v)
   | _, _, _, _ => ("bad-case", "na")
+
+/-! ## line protocol: component `limiter_gcrace`
+
+  Concurrent trials on the real limiter: one gc pass racing with an arrival that takes the
+  whole burst from a full idle bucket, then a second such arrival at the same instant.
+  `bucket_bound` for the window `[now, now]` says that in every sequential order at most one
+  of them is admitted.
+
+  case : `trials=<n> lim=<int> burst=<int>`      out : `hits=<trials with both admitted>`
+-/
+
+def runGcRace (case impl : String) : String × String :=
+  let toks := words case
+  match kvNat toks "trials", kvNat (words impl) "hits" with
+  | some _, some h => ("hits=0", if h == 0 then "ok" else "viol:gc-forgot-an-arrival")
+  | some _, none => ("hits=0", "unparsed")
+  | _, _ => ("bad-case", "na")
 
 end MosVerif.Limiter
